@@ -385,13 +385,21 @@ fn run_history(cfg: &Cfg, letters: &[u8], canonical: bool, ctx: &mut Ctx) {
 	let looping = cfg.shape == Shape::DcLoop;
 	// half of the finite scenes carry a loop region whose end lies beyond the audio: it is never reached, the sound is
 	// as finite as without it ("a non-looping sound reaches Stopped after its last frame")
-	let beyond = cfg.shape == Shape::Finite6 && cfg.chunk == 3;
+	let beyond = cfg.shape == Shape::Finite6 && cfg.chunk == 3 && cfg.first % 2 == 0;
 	let beyond_region = || Region { start: kira::sound::PlaybackPosition::Samples(0), end: kira::sound::EndPosition::Custom(kira::sound::PlaybackPosition::Samples(FIN_LEN + 3)) };
+	// the other finite scenes with chunks of 3 frames (odd first letters) are the same six frames cut out of a longer buffer (3 frames before, 4 after, all at
+	// -0.75): a slice is a sound of its own length - it ends, and reports Stopped, at the end of the slice
+	let sliced = cfg.shape == Shape::Finite6 && cfg.chunk == 3 && cfg.first % 2 == 1;
+	let slice_region = || Region { start: kira::sound::PlaybackPosition::Samples(3), end: kira::sound::EndPosition::Custom(kira::sound::PlaybackPosition::Samples(3 + FIN_LEN)) };
+	let frames: Vec<Frame> = if sliced { rig::dc_frames(3, -0.75).into_iter().chain(frames).chain(rig::dc_frames(4, -0.75)).collect() } else { frames };
 	let first_dec = pacer::count();
 	let mut dec_stats = None;
 	let (mut sound, mut handle): (Box<dyn Sound>, Box<dyn SoundHandle>) = match cfg.kind {
 		Kind::Static => {
 			let mut data = rig::static_data(sr, frames.clone()).start_time(own_start).reverse(cfg.shape == Shape::Finite6Reversed);
+			if sliced {
+				data = data.slice(slice_region());
+			}
 			if looping {
 				data = data.loop_region(Region::from(..));
 			} else if beyond {
@@ -404,6 +412,9 @@ fn run_history(cfg: &Cfg, letters: &[u8], canonical: bool, ctx: &mut Ctx) {
 			let (dec, stats) = ScriptedDecoder::new(frames.clone(), sr, vec![2, 1, 3], 2);
 			dec_stats = Some(stats);
 			let mut data = StreamingSoundData::from_decoder(dec).start_time(own_start);
+			if sliced {
+				data = data.slice(slice_region());
+			}
 			if looping {
 				data = data.loop_region(Region::from(..));
 			} else if beyond {
